@@ -7,7 +7,8 @@
 //
 // (b) end to end: synthetic drivers registered with drivers.Register, transactions executed by a
 //
-//	test node through EventExecTxList (state keys) and EventAddBlock (local keys).
+//	test node through EventExecTxList (state keys; single transactions here, transaction groups in
+//	group.go) and EventAddBlock (local keys).
 package main
 
 import (
@@ -89,6 +90,7 @@ func (d *synDriver) Exec(tx *types.Transaction, index int) (*types.Receipt, erro
 		return nil, types.ErrActionNotSupport
 	}
 	synRan = append(synRan, d.name)
+	ranSalt[s.Salt] = true
 	for _, kv := range s.Direct {
 		if err := d.GetStateDB().Set([]byte(kv.K), []byte(kv.V)); err != nil {
 			return nil, err
@@ -152,6 +154,7 @@ type inp struct {
 	Execs  []string `json:"execs,omitempty"`
 	Txs    []script `json:"txs,omitempty"`
 	Height int64    `json:"height,omitempty"`
+	Layout []int    `json:"layout,omitempty"` // gblock: 1 = single transaction, k = group of k
 }
 
 func bx(s string) string { return hlib.Hx([]byte(s)) }
@@ -923,6 +926,8 @@ func main() {
 			getNode().doBlock(o, "replay", in)
 		case "localblock":
 			getNode().doLocalBlock(o, "replay", in)
+		case "gblock":
+			getNode().doGroupBlock(o, "replay", in)
 		}
 		return
 	}
@@ -951,5 +956,6 @@ func main() {
 		for i := 0; i < nl; i++ {
 			n.doLocalBlock(o, "localblock", n.genLocalBlock(rb))
 		}
+		n.runGroups(o, r.Fork(), opts.Thorough())
 	}
 }
